@@ -43,6 +43,9 @@ def plan(tier, seed):
             specs.append({'kind': 'writer_section', 'fmt': fmt, 'exists': exists})
             specs.append({'kind': 'failpoints', 'fmt': fmt, 'exists': exists, 'random': 30 if tier == 'quick' else 400,
                           'entry': 'file'})
+    specs.append({'kind': 'stream', 'fmt': 'p8', 'exists': True, 'readonly': True})
+    specs.append({'kind': 'stream', 'fmt': 'png', 'exists': True, 'readonly': True})
+    specs.append({'kind': 'internal'})
     specs.append({'kind': 'png_rows', 'exists': True})
     specs.append({'kind': 'png_rows', 'exists': False})
     specs.append({'kind': 'cli', 'entry': 'luafmt'})
@@ -57,8 +60,9 @@ def plan(tier, seed):
 class Dest:
     """A destination path with its before/after snapshot oracle."""
 
-    def __init__(self, ctx, rng, fmt, exists, root):
+    def __init__(self, ctx, rng, fmt, exists, root, readonly=False):
         self.ctx = ctx
+        self.readonly = readonly
         self.dir = os.path.join(root, 'dest')
         os.makedirs(self.dir, exist_ok=True)
         self.path = os.path.join(self.dir, 'cart.p8' if fmt == 'p8' else 'cart.p8.png')
@@ -75,6 +79,8 @@ class Dest:
                 data = rc.write_p8png(self.regions, rc.raw_code_area(self.code), 8, base_rows=rows)
             with open(self.path, 'wb') as fh:
                 fh.write(data)
+        if exists and readonly:
+            os.chmod(self.path, 0o444)      # a destination the user marked read-only is still "the file already there"
         with open(os.path.join(self.dir, 'bystander.txt'), 'wb') as fh:
             fh.write(b'untouched')
         self.snap = self.snapshot()
@@ -84,7 +90,7 @@ class Dest:
             st = os.stat(self.path)
             with open(self.path, 'rb') as fh:
                 data = fh.read()
-            meta = (st.st_ino, st.st_mtime_ns, st.st_size)
+            meta = (st.st_ino, st.st_mtime_ns, st.st_size, st.st_mode & 0o777)
         else:
             data, meta = None, None
         return (data, meta, sorted(os.listdir(self.dir)))
@@ -111,8 +117,12 @@ class Dest:
             if os.path.exists(self.path):
                 os.remove(self.path)
         else:
+            if os.path.exists(self.path):
+                os.chmod(self.path, 0o644)
             with open(self.path, 'wb') as fh:
                 fh.write(self.snap[0])
+            if self.readonly:
+                os.chmod(self.path, 0o444)
         for f in set(now[2]) - set(self.snap[2]):
             p = os.path.join(self.dir, f)
             if os.path.isfile(p):
@@ -165,7 +175,9 @@ def attempt(ctx, dest, call, case, injector, fired=None):
 
 def run_stream(ctx, rng, spec, root):
     from pico8.game import file as p8file
-    dest = Dest(ctx, rng, spec['fmt'], spec['exists'], root)
+    dest = Dest(ctx, rng, spec['fmt'], spec['exists'], root, readonly=spec.get('readonly', False))
+    if spec.get('readonly'):
+        ctx.feature('readonly_destination')
     cls = fmt_class(spec['fmt'])
     g = new_game(rng)
     # fault-free count
@@ -365,13 +377,62 @@ def run_failpoints(ctx, rng, spec, root):
     ctx.sample({'injector': 'failpoint', 'fmt': spec['fmt'], 'entry': entry, 'example_site': list(seq[len(seq) // 2])})
 
 
+def run_internal(ctx, rng, spec, root):
+    """Failure sources that need no injection: code that cannot be encoded, a Lua writer option naming a missing file,
+    `build` from a source that does not parse or requires a missing module -- with the destination existing, read-only, absent."""
+    from pico8.game import file as p8file
+    from pico8.lua import lua
+    from pico8 import tool
+    always = lambda: True   # these calls cannot succeed: whatever they return, the destination must be as before
+    for exists, readonly in ((True, False), (True, True), (False, False)):
+        # 1. oversize code for a .p8.png
+        dest = Dest(ctx, rng, 'png', exists, root, readonly=readonly)
+        regions, _ = carts.random_regions(rng, 'uniform')
+        big = carts.make_game(regions, code=carts.incompressible(rng, 17000), version=8)
+        attempt(ctx, dest, lambda: p8file.to_file(big, dest.path),
+                {'injector': 'oversize_code', 'fmt': 'png', 'exists': exists, 'readonly': readonly}, 'oversize_code', fired=always)
+        shutil.rmtree(dest.dir, ignore_errors=True)
+        for fmt in ('p8', 'png'):
+            # 2. the minifier is told to read a names file that does not exist
+            dest = Dest(ctx, rng, fmt, exists, root, readonly=readonly)
+            g = new_game(rng)
+            attempt(ctx, dest, lambda: p8file.to_file(g, dest.path, lua_writer_cls=lua.LuaMinifyTokenWriter,
+                                                      lua_writer_args={'keep_names_from_file': os.path.join(root, 'no_such_names.txt')}),
+                    {'injector': 'missing_names_file', 'fmt': fmt, 'exists': exists, 'readonly': readonly}, 'missing_names_file', fired=always)
+            # 3. build from sources that cannot be used
+            bad = os.path.join(root, 'bad_main.lua')
+            with open(bad, 'wb') as fh:
+                fh.write(b'x=1\nfunction f(\n')
+            attempt(ctx, dest, lambda: tool.main(['-q', 'build', dest.path, '--lua', bad]),
+                    {'injector': 'build_unparseable_source', 'fmt': fmt, 'exists': exists, 'readonly': readonly},
+                    'build_unparseable_source', fired=always)
+            req = os.path.join(root, 'req_main.lua')
+            with open(req, 'wb') as fh:
+                fh.write(b'x=1\nrequire("module_that_is_not_there")\n')
+            attempt(ctx, dest, lambda: tool.main(['-q', 'build', dest.path, '--lua', req]),
+                    {'injector': 'build_missing_require', 'fmt': fmt, 'exists': exists, 'readonly': readonly},
+                    'build_missing_require', fired=always)
+            # and an injected stream failure during build to an absent / existing destination
+            ok_src = os.path.join(root, 'ok_main.lua')
+            with open(ok_src, 'wb') as fh:
+                fh.write(b'x=1\nprint(x)\n')
+            for k in (1, 2, 5):
+                with faults.StreamFaultPatch(fmt_class(fmt), k) as pt:
+                    attempt(ctx, dest, lambda: tool.main(['-q', 'build', dest.path, '--lua', ok_src]),
+                            {'injector': 'stream', 'entry': 'build', 'k': k, 'fmt': fmt, 'exists': exists, 'readonly': readonly},
+                            'stream', fired=lambda: pt.stream is not None and pt.stream.failed)
+            ctx.feature('internal_failures_%s' % ('absent' if not exists else 'readonly' if readonly else 'exists'))
+            shutil.rmtree(dest.dir, ignore_errors=True)
+    ctx.sample({'internal_failure_sources': ['oversize_code', 'missing_names_file', 'build_unparseable_source', 'build_missing_require']})
+
+
 def run_shard(spec, ctx):
     rng = ctx.rng
     root = tempfile.mkdtemp(prefix='vf-c11-')
     fsmon.install()
     try:
         {'stream': run_stream, 'writer_section': run_writer_section, 'png_rows': run_png_rows, 'cli': run_cli,
-         'failpoints': run_failpoints}[spec['kind']](ctx, rng, spec, root)
+         'failpoints': run_failpoints, 'internal': run_internal}[spec['kind']](ctx, rng, spec, root)
     finally:
         shutil.rmtree(root, ignore_errors=True)
 
@@ -415,7 +476,11 @@ def replay(case, ctx):
 def gates(m, tier):
     f, mon = m['features'], m['monitors']
     missed = []
-    for inj in ('stream', 'lua_writer', 'section', 'png_encoder', 'failpoint', 'unparseable_output'):
+    for k in ('internal_failures_absent', 'internal_failures_exists', 'internal_failures_readonly', 'readonly_destination'):
+        if f.get(k, 0) < 1:
+            missed.append('%s never driven' % k)
+    for inj in ('stream', 'lua_writer', 'section', 'png_encoder', 'failpoint', 'unparseable_output', 'oversize_code', 'missing_names_file',
+                'build_unparseable_source', 'build_missing_require'):
         if mon.get('faults_delivered:' + inj, 0) < 1:
             missed.append('no fault delivered by injector %s' % inj)
     for inj in ('stream', 'lua_writer', 'section', 'failpoint'):
@@ -429,8 +494,8 @@ def gates(m, tier):
             if k.startswith('stream_writes_'):
                 sw[k[len('stream_writes_'):]] = v
     for fmt in ('p8', 'png'):
-        if fmt not in sw or f.get('stream_index_' + fmt, 0) < 2 * (sw.get(fmt, 0) + 1):
-            missed.append('stream write indices for %s incomplete: %s of 2x%s' % (fmt, f.get('stream_index_' + fmt, 0), sw.get(fmt, 0) + 1))
+        if fmt not in sw or f.get('stream_index_' + fmt, 0) < 3 * (sw.get(fmt, 0) + 1):
+            missed.append('stream write indices for %s incomplete: %s of 3x%s' % (fmt, f.get('stream_index_' + fmt, 0), sw.get(fmt, 0) + 1))
     hit, total = mon.get('failpoint_sites_hit', 0), mon.get('failpoint_sites_in_fault_free_run', 0)
     if total == 0 or hit < 0.9 * total:
         missed.append('failpoint sites hit %d of %d (<90%%)' % (hit, total))
